@@ -31,8 +31,9 @@ MANIFEST = dict(
          "tied to the code on every run through the compiled Lean driver (ops parse/parsestr/lex, vattrs, yshape): outcome "
          "class, diagnostic text or id, normalised attributes. Implementation-only oracles search for internal exceptions, "
          "silent acceptance (unbalanced text, '=' without value, documented-illegal attribute combinations on boundary values) "
-         "and rejected documented declarations (docs/*.rst, regression/input/*.yaml), and run the command line on non-mapping "
-         "YAML documents.",
+         "and rejected documented declarations (docs/*.rst, regression/input/*.yaml), run the command line on non-mapping YAML "
+         "documents and the whole pipeline (parse, verify, generate, write wrappers) on a family of declaration shapes "
+         "(unnamed / abstract arguments, function pointers, arrays, defaults).",
     design="3 C17",
     note="Trusted: Lean kernel; the hand-written models (Model/Lexer.lean, Decl.lean, Attrs.lean, YamlShape.lean) validated on "
          "generated inputs only; the allowed-attribute lists, token patterns (tokenSpec_is_modelled) and typemap tables are "
@@ -44,7 +45,9 @@ MANIFEST = dict(
          "theorem; class scope and class/enum/struct/template/namespace statements are `unmodelled` in Lean and only fuzzed; "
          "the YAML model covers the shape layer only (what add_declaration does with a well-shaped entry, typemap creation and "
          "node-specific diagnostics are outside it and skipped by the tie); PyYAML's own errors. Open findings: five "
-         "documentation snippets in obsolete syntax are rejected (doc-rejected:*; repairing them is a documentation rewrite).",
+         "documentation snippets in obsolete syntax are rejected (doc-rejected:*; repairing them is a documentation rewrite); a "
+         "top-level declaration of function-pointer type with a char/string pointer result ends in TypeError in wrapf "
+         "(pipeline:TypeError:wrapf.py:dump_abstract_interfaces; needs a decision whether such a variable is supported).",
     technique="Lean 4 proof (invariants over all parser / validator functions by induction on the recursion budget or on the value "
               "tree) + differential correspondence on three driver ops + grammar-based and boundary-value fuzzing of the "
               "implementation",
@@ -333,6 +336,62 @@ def run(ctx):
         from tools.props import c17_yshape
         c17_yshape.run_yshape(ctx, thorough, ok)
 
+    def phase_pipeline():
+        # ---- the whole command line (parse, verify, generate, write C/Fortran wrappers) on declaration SHAPES: unnamed and
+        #      abstract arguments, function pointers with abstract parameter lists, arrays, references, defaults.  An internal
+        #      exception anywhere downstream of the validation is a failing input.
+        import contextlib
+        import io
+        import os
+        import sys
+        from shroud import main as smain
+        shapes = ["void f(int, double)", "void f(int)", "int f(int *, double &)", "void f(const char *)", "void f(void *)",
+                  "void f(int x, double)", "void f(int (*)(int))", "void f(int (*cb)(int, double))", "void f(int (*cb)(void))",
+                  "void f(int x[3])", "void f(int [3])", "void f(int **)", "void f(int n = 1, double)", "int *f(int)",
+                  "void f(int x, int y = 2)", "void f(int &)", "const char *f(void)", "void f(int x +intent(in))",
+                  "void f(int *x +intent(out)+dimension(3))", "double f(double)", "void f(int x, ...)", "void f(std::string)",
+                  "void f(std::vector<int> &)", "void f(bool, bool)", "void f(size_t)", "void f(int a, int a)"]
+        sp = c09.special_shapes()
+        shapes += [" ".join(t.split()) for t in sp[:: (7 if not thorough else 2)]]
+        tmp = common.scratch()
+        stat = {"shapes": len(shapes), "ok": 0, "diagnostic": 0, "internal": 0}
+        try:
+            for i, decl in enumerate(shapes):
+                for lang in ("c", "c++"):
+                    if lang == "c" and ("std" in decl or "&" in decl):
+                        continue
+                    path = os.path.join(tmp, "p%d.yaml" % i)
+                    import yaml
+                    with open(path, "w") as f:
+                        yaml.safe_dump({"library": "p%d" % i, "language": lang, "declarations": [{"decl": decl}]}, f)
+                    out = os.path.join(tmp, "o%d%s" % (i, lang[:1] + str(len(lang))))
+                    os.makedirs(out, exist_ok=True)
+                    argv = sys.argv
+                    sys.argv = ["shroud", "--outdir", out, "--logdir", out, path]
+                    try:
+                        with contextlib.redirect_stdout(io.StringIO()), contextlib.redirect_stderr(io.StringIO()):
+                            smain.main()
+                        stat["ok"] += 1
+                    except SystemExit as e:
+                        stat["ok" if e.code in (0, None) else "diagnostic"] += 1
+                    except (RuntimeError, DeprecationWarning):
+                        stat["diagnostic"] += 1
+                    except Exception as e:  # noqa
+                        import traceback
+                        tb = [f for f in traceback.extract_tb(e.__traceback__) if os.sep + "shroud" + os.sep in f.filename]
+                        site = "%s:%s" % (os.path.basename(tb[-1].filename), tb[-1].name) if tb else "?"
+                        stat["internal"] += 1
+                        ctx.fail("pipeline:%s:%s" % (type(e).__name__, site),
+                                 "shroud on `%s` [%s] raises %s at %s: %s" % (decl, lang, type(e).__name__, site,
+                                                                              " ".join(str(e).split())[:100]),
+                                 {"kind": "pipeline", "decl": decl, "language": lang})
+                    finally:
+                        sys.argv = argv
+                    ctx.count(1)
+        finally:
+            common.rmtree(tmp)
+        ctx.note("pipeline_shapes", stat)
+
     def phase_main_documents():
         # ---- the command line on YAML documents that are not a mapping / are empty / are not YAML
         import contextlib
@@ -385,6 +444,7 @@ def run(ctx):
     dc.guarded(ctx, "oracle-yaml", phase_yaml)
     dc.guarded(ctx, "yamlShape-tie", phase_yshape)
     dc.guarded(ctx, "oracle-main-documents", phase_main_documents)
+    dc.guarded(ctx, "oracle-pipeline-shapes", phase_pipeline)
 
 
 def replay(path):
